@@ -50,6 +50,17 @@ def replay_file(prop, path, verbose=True):
     try:
         wd = os.path.join(eng.scratch, "r")
         os.makedirs(wd)
+        if doc["harness"] == "h_symtab.c":
+            rec = {}
+            q.with_print = True
+            eng._symtab(q, wd, rec)
+            if rec.get("verdict") == "fail":
+                for f in rec.get("failed", []):
+                    print(f["description"])
+                print("VIOLATION property=%s replay=%s" % (prop, path))
+                return 1
+            print("symbol table side condition holds on the current tree")
+            return 0
         rep = eng.native_replay(q, wd, doc.get("inputs") or {}, False, "cex")
         ok = eng.replay_confirms(rep, False)
         if verbose:
